@@ -57,7 +57,7 @@ CLAIMED = {
         ref="4/C08"),
     "C09": dict(
         technique="exhaustive enumeration of the reward-independent schedule with stub learners over ranges of n x rho_max, plus property-based testing (Hypothesis) of GPO/PCT/VPCT over recording subclasses of the real base learners; reference schedule N, L as oracle",
-        text="Exploration, with one finite sub-space enumerated completely: for every n in 100..1200 (thorough ..5000) and every rho_max of a grid the whole run is driven with an O(1) stub learner and compared with the reference schedule (learner count/order/parameters, exactly L alternating pull/receive pairs each, L validation rounds on the last proposal, score == mean of exactly those rewards, final point == best validated point). Generated runs with real learners, partitions and reward laws check the same on the actual classes.",
+        text="Exploration, with one finite sub-space enumerated completely: for every n in 100..2000 (thorough ..5000) and every rho_max of a grid the whole run is driven with an O(1) stub learner and compared with the reference schedule (learner count/order/parameters, exactly L alternating pull/receive pairs each, L validation rounds on the last proposal, score == mean of exactly those rewards, final point == best validated point). Generated runs with real learners, partitions and reward laws check the same on the actual classes.",
         note="floor(n/(2N)) >= 1 (else: open finding D8). Cases with a ceil/floor argument within 1e-9 of an integer are skipped and counted. exhaustive refers to the stub sub-check only.",
         ref="4/C09"),
     "C10": dict(
@@ -72,7 +72,7 @@ CLAIMED = {
         ref="4/C11"),
     "C12": dict(
         technique="property-based testing (Hypothesis) plus enumeration of every n in a range: the openings (make_children calls) recorded inside each pull are judged by a reference model of the harmonic schedule with exact Fraction arithmetic",
-        text="Exploration, with the full-budget runs for every n in 10..600 (thorough ..3000) on two partitions enumerated: each pull is classified (opening / pending child / post-schedule) and checked against the reference schedule: root first, depth order, per-depth budgets floor(h_max/h) with h_max = floor(n/H_n) computed exactly, depth advance only on exhausted budget or no unopened cell, opened cell is the best unopened evaluated cell of its depth, children returned in order exactly once, no cell evaluated twice, domain centre only after exhaustion and a stable recommendation afterwards.",
+        text="Exploration, with the full-budget runs for every n in 10..1000 (thorough ..3000) on two partitions enumerated: each pull is classified (opening / pending child / post-schedule) and checked against the reference schedule: root first, depth order, per-depth budgets floor(h_max/h) with h_max = floor(n/H_n) computed exactly, depth advance only on exhausted budget or no unopened cell, opened cell is the best unopened evaluated cell of its depth, children returned in order exactly once, no cell evaluated twice, domain centre only after exhaustion and a stable recommendation afterwards.",
         note="n >= 10; openings are observed through the recording partition subclass.",
         ref="4/C12"),
     "C13": dict(
